@@ -338,8 +338,9 @@ func lexemeLength(content string, tok parser.Token) int {
 	case parser.TokenComment:
 		// the value starts after the semicolon
 		return lsputil.UTF16Len(tok.Value) + 1
-	case parser.TokenCode:
-		// the value of a code has no parentheses, the token in the document has
+	case parser.TokenCode, parser.TokenCommodity:
+		// the value of a code has no parentheses and the value of a quoted commodity
+		// has no quotes, the token in the document has
 		return lsputil.UTF16Len(sourceText(content, tok))
 	default:
 		return lsputil.UTF16Len(tok.Value)
